@@ -627,6 +627,36 @@ def eval_stateful(cell, res):
                 res.count("crash-at-%d" % (p - k))
         if ncrash == 0:
             res.nontrivial = False
+        # ---- call-back book-keeping over mixed warm-up / sampling calls on ONE object (every call appends to the chain)
+        if k == cell.get("k0", k):
+            for calls in ((("W", 2), ("S", 1), ("W", 2)), (("W", 2), ("W", 2)), (("S", 2), ("W", 2), ("S", 1))):
+                log = Log()
+                try:
+                    sm = _make_stateful(setup, cat, log)
+                    _seed_streams(seed)
+                    total = 0
+                    for kind, nn in calls:
+                        (sm.warmup if kind == "W" else sm.sample)(nn)
+                        total += nn
+                    chain = _chain_of(sm.get_samples())
+                except Exception as e:
+                    res.refused += 1
+                    res.outcomes.add("%s:mixed-calls-refused:%s" % (setup, type(e).__name__))
+                    continue
+                res.transitions += total
+                res.traces += 1
+                res.evaluations += 1
+                idx = [int(i) for _, i in log.entries]
+                desc = ";".join("%s(%d)" % (("warmup" if kk == "W" else "sample"), nn) for kk, nn in calls)
+                if len(idx) != total:
+                    res.fail("C14|%s|mixed-calls|callback-count" % loop_comp, "%s: call-back invoked %d times for %d transitions "
+                             "(set-up %s)" % (desc, len(idx), total, setup))
+                elif idx != list(range(total)):
+                    res.fail("C14|%s|mixed-calls|callback-index" % loop_comp, "%s: call-back received indices %s, the states' "
+                             "positions in the chain are %s (set-up %s)" % (desc, idx, list(range(total)), setup))
+                elif len(chain) == total and not all(_same(v, chain[i]) for (v, _), i in zip(log.entries, range(total))):
+                    res.fail("C14|%s|mixed-calls|callback-state" % loop_comp, "%s: a state handed to the call-back is not the chain "
+                             "entry at its index (set-up %s)" % (desc, setup))
         _attribute(res, comp, fails, extra=" (set-up %s, warm-up %d, seed %d)" % (setup, k, seed), loop_comp=loop_comp)
         res.sample = {"setup": setup, "k": k, "reference_chain_first_component": [float(v[0]) for v in full],
                       "histories": res.traces, "failing_histories": len(fails),
